@@ -1,15 +1,61 @@
 (* operations of the line protocol, evaluated on the extracted models *)
 open Conv
 module L = Stdlib.List
+module S = Stdlib.String
 
 let res_pair = function
   | Base.Ok (s, d) -> Printf.sprintf "ok %s %s" (hex s) (hex d)
   | Base.Err _ -> "err"
   | Base.Panic _ -> "panic"
 
+let split c s = S.split_on_char c s
+let be12 n = hex (Base.be_enc (nat_of_int 12) n)
+
+(* ---- core scenarios --------------------------------------------------------------------- *)
+let core_op tok =
+  let p = Array.of_list (split '.' tok) in
+  let x = p.(1) = "b" in
+  match p.(0) with
+  | "s" -> CoreSys.OSeal (x, unhex p.(2))
+  | "d" -> CoreSys.ODeliver (x, nat_of_int (int_of_string p.(2)))
+  | "f" -> CoreSys.OFlip (x, nat_of_int (int_of_string p.(2)), nat_of_int (int_of_string p.(3)), n_of_int (int_of_string p.(4)))
+  | "t" -> CoreSys.OTrunc (x, nat_of_int (int_of_string p.(2)), nat_of_int (int_of_string p.(3)))
+  | "r" -> CoreSys.ORaw (x, unhex p.(2))
+  | "k" -> CoreSys.OTick x
+  | "n" -> CoreSys.ORotate (x, n_of_int (int_of_string p.(2)), n_of_dec p.(3), p.(4) = "1", unhex p.(5))
+  | "p" -> CoreSys.OState x
+  | _ -> failwith "bad core op"
+
+let core_out = function
+  | CoreSys.CSealed (k, c7, len) -> Printf.sprintf "S%d:%s:%d" (int_of_n k) (hex c7) (int_of_nat len)
+  | CoreSys.COk p -> "ok:" ^ hex p
+  | CoreSys.CErr -> "err"
+  | CoreSys.CPanic -> "panic"
+  | CoreSys.CNone -> "-"
+  | CoreSys.CState (cur, st) ->
+    Printf.sprintf "st:%d:%s" (int_of_n cur)
+      (S.concat "," (L.map (fun (((snd_, mn), nm), sn) -> Printf.sprintf "%s/%s/%s/%s" (hex snd_) (be12 mn) (be12 nm) (be12 sn)) st))
+
+let core_scenario a =
+  match a with
+  | _alg :: key :: ra :: rb :: ops ->
+    let k = n_of_int (int_of_string key) in
+    let rl s = L.map unhex (split ',' s) in
+    let st = CoreSys.cst_init k (n_of_int 100001) (n_of_int 100002) (rl ra) (rl rb) in
+    let (_, outs) = CoreSys.crun st (L.map core_op ops) in
+    S.concat " " (L.map core_out outs)
+  | _ -> failwith "bad core line"
+
 let run (op : string) (a : string list) : string option =
   let arg i = L.nth a i in
   match op with
   | "frame" -> Some (res_pair (Dissect.frame_parse (unhex (arg 0))))
   | "packet" -> Some (res_pair (Dissect.packet_parse (unhex (arg 0))))
+  | "matches" -> Some (b2s (RangeMatch.range_matches (unhex (arg 0)) (n_of_int (int_of_string (arg 1))) (unhex (arg 2))))
+  | "nonce_inc" -> Some (hex (Nonce.nonce_increment (unhex (arg 0))))
+  | "core" -> Some (core_scenario a)
+  | "b62enc" -> Some (match Base62.to_base62 (unhex (arg 0)) with Base.Ok s -> "ok " ^ hex s | Base.Err _ -> "err" | Base.Panic _ -> "panic")
+  | "b62dec" -> Some (match Base62.from_base62 (unhex (arg 0)) with Base.Ok s -> "ok " ^ hex s | Base.Err _ -> "err" | Base.Panic _ -> "panic")
+  | "range_read" -> Some (match RangeMatch.range_read (unhex (arg 0)) with
+      | Base.Ok ((b, p), _) -> Printf.sprintf "ok %s %d" (hex b) (int_of_n p) | Base.Err _ -> "err" | Base.Panic _ -> "panic")
   | _ -> None
